@@ -41,9 +41,9 @@ def decAlign (tok : String) : Option Align :=
   | "3" => some .justify
   | _ => none
 
-/-- the fuel handed to the model: far above the number of loop iterations / generator
-    micro-steps needed (each iteration that does not grow a child is followed by a growing one
-    within `n * (maxW + 1)` yields) -/
+/-- the first fuel tried: above the number of loop iterations / generator micro-steps
+    normally needed (each iteration that does not grow a child is followed by a growing one
+    within `n * (maxW + 1)` yields); `untilAnswer` doubles it if it was not enough -/
 def fuelFor (dims : List Dim) (avail : Nat) : Nat :=
   let n := dims.length
   let mw := maxOf (dims.map (·.weight))
@@ -83,11 +83,21 @@ def decReq (dir al : String) (rest : List String) : Option (Option Req × List S
     pure (some { horizontal := horizontal, al := al, filler := f, pad := p, children := cs }, rest)
   | _, _, _ => pure (none, rest)
 
+instance : Inhabited Outcome := ⟨.hang⟩
+
+/-- Run the model with growing fuel until it answers.  `Ptk.Props.C12.divide_terminates`
+    guarantees that this search stops for valid dimensions and `divide_fuel_independent` that the
+    answer found is the answer for every larger fuel; the cap only protects the driver. -/
+partial def untilAnswer (f : Nat → Outcome) (fuel : Nat) : Outcome :=
+  match f fuel with
+  | .hang => if fuel > 2 ^ 44 then .hang else untilAnswer f (2 * fuel)
+  | r => r
+
 def runDivide (r : Req) (avail : Nat) (done : Bool) : Outcome :=
   let all := allChildren r.al r.filler r.pad r.children
-  let fuel := fuelFor all avail
-  if r.horizontal then divideH fuel r.al r.filler r.pad r.children avail done
-  else divideV fuel r.al r.filler r.pad r.children avail
+  untilAnswer (fun fuel =>
+    if r.horizontal then divideH fuel r.al r.filler r.pad r.children avail done
+    else divideV fuel r.al r.filler r.pad r.children avail) (fuelFor all avail)
 
 def runLayout (r : Req) (x y w h : Nat) (done : Bool) : String :=
   if !r.horizontal && r.children.isEmpty then "nothing"
